@@ -115,6 +115,30 @@ theorem C02_commit_refines_replay_history [DecidableEq α] (n : Nat) (es : List 
   (C02_commit_refines_replay_partial n es s hrun
     (okRun2_of_okHist (WState.init n) SpecState.init HFlags.init es (inv_init n) (minv_init n) (flag_init n) hh)).1
 
+/-- **C02_history_verdict_decides.**  The executable scan `okHistB` - what the driver answers to
+`C02 clean …`, on which the harness bases every attribution to a known finding - decides exactly
+the hypothesis of `C02_commit_refines_replay_history`; hence whenever the driver says `clean`, the
+published documents of every run of the model with that history are the sequential replay. -/
+theorem C02_history_verdict_decides [DecidableEq α] (n : Nat) (es : List (Event α)) (s : WState α)
+    (hrun : run (WState.init n) es = some s) :
+    (okHistB HFlags.init (history es) = true ↔ okHist HFlags.init (history es))
+    ∧ (okHistB HFlags.init (history es) = true → List.Perm (published s) (replay (history es)).committed) :=
+  ⟨okHistB_iff _ _, fun h => C02_commit_refines_replay_history n es s hrun ((okHistB_iff _ _).mp h)⟩
+
+/-- F10 at the level of one segment (two producer threads; reproduced on the real code by the
+forced schedules of the harness): thread A stamps a batch `[add x (5), delete x (6), add y (7)]`
+and queues its delete, thread B stamps `add z (9)` later but is sent first; the worker starts the
+segment with z, `skip_to(9)` passes the delete, then A's adds join the segment: `apply_deletes`
+leaves x alive although `5 < 6` - the hypothesis of `BuildOK` (the skipped deletes are older than
+every document of the segment), which atomic API calls guarantee, fails. -/
+theorem C02_producer_race_counterexample :
+    let log : List (DelOp Nat) := [⟨6, fun d => d == 10⟩]
+    let c := skipTo 9 log 0
+    let sg : Seg Nat := { id := 0, docs := mkDocs [(12, 9), (10, 5), (11, 7)], cursor := c }
+    c = 1 ∧ (finalize log sg).docs.map (fun d => (d.doc, d.alive)) = [(12, true), (10, true), (11, true)]
+      ∧ dead log (10, 5) = true := by
+  decide
+
 /-- **merges are invisible**: under the same hypotheses no internal event — in particular no
 `mergeStart` / `mergeEnd` — changes what a fresh searcher shows -/
 theorem C02_merges_invisible [DecidableEq α] (n : Nat) (es : List (Event α)) (e : Event α) (s s' : WState α) (r : Nat)
@@ -523,6 +547,12 @@ theorem C02_batch_one_unit (s s' : WState α) (w r : Nat) (h : step s (.recv w) 
   · cases h
 
 /-! ## the three (four) counter-examples: the unrestricted statement is false
+
+Status of the full statement: every clause of the property is proved for all event sequences
+under the two hypotheses of `C02_commit_refines_replay_partial` (merges, any number of workers,
+reopen included); what remains outside is exactly what the counter-examples below (and F9, F10,
+which need a second OS thread: `C02_producer_race_counterexample` and the harness) show to be false
+in the code, plus the sub-steps of concurrent producers, which the model takes as atomic.
 
 `C02_full` — *for every event sequence `es` with `run (WState.init n) es = some s`:
 `published s` is a permutation of `(replay (history es)).committed`, and
